@@ -27,10 +27,11 @@ type Switch struct {
 }
 
 type task struct {
-	id   int
-	wake chan struct{}
-	done bool
-	fn   func()
+	id      int
+	wake    chan struct{}
+	done    bool
+	started bool
+	fn      func()
 }
 
 type Sched struct {
@@ -56,6 +57,18 @@ type Sched struct {
 	active  bool
 	// BlockedN counts forced switches away from a task waiting for a lock
 	BlockedN int
+	// PinTasks (set before Run): each task runs on an OS thread of its own
+	PinTasks bool
+	// StartBurst > 0 (set before Run, seeded mode): an opening phase in which every task in
+	// turn gets the baton for StartBurst yield points, so that all of them are in the middle
+	// of their first call before ordinary scheduling begins
+	StartBurst int
+	since      int
+	startDone  bool
+	// Weights (set before Run, seeded mode): task i is chosen with probability proportional
+	// to Weights[i] (default 1) whenever the scheduler picks who runs next. A few heavy tasks
+	// race through many calls while many light ones sit in the middle of theirs.
+	Weights []int
 }
 
 // NewSeeded makes a scheduler that switches with probability 1/den at every yield.
@@ -76,6 +89,58 @@ func (s *Sched) Count() uint64 { return s.count }
 
 //go:norace
 func (s *Sched) Current() int { return s.cur }
+
+// pick chooses among candidate task ids by weight.
+//
+//go:norace
+func (s *Sched) pick(r []int) int {
+	if len(s.Weights) == 0 {
+		return r[s.rng.Intn(len(r))]
+	}
+	total := 0
+	for _, id := range r {
+		total += s.weight(id)
+	}
+	v := s.rng.Intn(total)
+	for _, id := range r {
+		if w := s.weight(id); v < w {
+			return id
+		} else {
+			v -= w
+		}
+	}
+	return r[len(r)-1]
+}
+
+//go:norace
+func (s *Sched) weight(id int) int {
+	if id < len(s.Weights) && s.Weights[id] > 0 {
+		return s.Weights[id]
+	}
+	return 1
+}
+
+//go:norace
+func (s *Sched) unstartedAmong(r []int) int {
+	for _, id := range r {
+		if !s.tasks[id].started {
+			return id
+		}
+	}
+	return -1
+}
+
+// unstarted returns the lowest-numbered task that has never held the baton, or -1.
+//
+//go:norace
+func (s *Sched) unstarted() int {
+	for _, t := range s.tasks {
+		if !t.started && !t.done && t.id != s.cur {
+			return t.id
+		}
+	}
+	return -1
+}
 
 //go:norace
 func (s *Sched) runnableOther() []int {
@@ -105,9 +170,16 @@ func (s *Sched) Yield(site int) {
 			to = s.switches[s.swi].To
 			s.swi++
 		}
+	} else if s.StartBurst > 0 && !s.startDone {
+		if s.since++; s.since >= s.StartBurst {
+			if to = s.unstarted(); to < 0 {
+				s.startDone = true
+			}
+			s.since = 0
+		}
 	} else if s.rng.Intn(s.den) == 0 {
 		if r := s.runnableOther(); len(r) > 0 {
-			to = r[s.rng.Intn(len(r))]
+			to = s.pick(r)
 		}
 	}
 	if to < 0 || to >= len(s.tasks) || to == s.cur || s.tasks[to].done {
@@ -117,6 +189,7 @@ func (s *Sched) Yield(site int) {
 	s.Sites[uint(site)%uint(len(s.Sites))]++
 	from := s.cur
 	s.cur = to
+	s.tasks[to].started = true
 	raceDisable()
 	s.tasks[to].wake <- struct{}{}
 	<-s.tasks[from].wake
@@ -150,12 +223,13 @@ func (s *Sched) Blocked(site int) {
 		if s.explicit {
 			to = r[0]
 		} else {
-			to = r[s.rng.Intn(len(r))]
+			to = s.pick(r)
 		}
 	}
 	s.Rec = append(s.Rec, Switch{At: s.count, To: to})
 	from := s.cur
 	s.cur = to
+	s.tasks[to].started = true
 	raceDisable()
 	s.tasks[to].wake <- struct{}{}
 	<-s.tasks[from].wake
@@ -184,11 +258,14 @@ func (s *Sched) finish(t *task) {
 			}
 			s.epi++
 		}
+	} else if u := s.unstartedAmong(r); s.StartBurst > 0 && !s.startDone && u >= 0 {
+		next = u
 	} else {
-		next = r[s.rng.Intn(len(r))]
+		next = s.pick(r)
 	}
 	s.RecEnds = append(s.RecEnds, next)
 	s.cur = next
+	s.tasks[next].started = true
 	raceDisable()
 	s.tasks[next].wake <- struct{}{}
 	raceEnable()
@@ -209,9 +286,13 @@ func (s *Sched) Run(fns []func(), first int, watchdog time.Duration) bool {
 	for _, t := range s.tasks {
 		t := t
 		go func() {
-			// every task is a caller thread of its own: a fresh OS thread that ends with the task
-			// (seam S7, see core/thread.go), not whichever thread the Go scheduler has at hand
-			runtime.LockOSThread()
+			if s.PinTasks {
+				// every task is a caller thread of its own: a fresh OS thread that ends with the
+				// task (seam S7, see core/thread.go), not whichever thread the Go scheduler has at
+				// hand. Every hand-over of the baton is then a switch between OS threads, which
+				// costs microseconds: the script decides per run.
+				runtime.LockOSThread()
+			}
 			raceDisable()
 			<-t.wake
 			raceEnable()
@@ -224,6 +305,7 @@ func (s *Sched) Run(fns []func(), first int, watchdog time.Duration) bool {
 		first = 0
 	}
 	s.cur = first
+	s.tasks[first].started = true
 	s.active = true
 	raceDisable()
 	s.tasks[first].wake <- struct{}{}
